@@ -6,19 +6,20 @@ import re
 
 
 def _get_reserved_names():
-	"""Get all public methods and properties from Vector and Table classes.
+	"""Get all public methods and properties from the Vector, Table and Row classes
+	(a Row serves the table's accessor names too: `for row in t: row.<accessor>`).
 	
 	This is computed dynamically to support future plugin extensions.
 	Results are cached for performance.
 	"""
 	if not hasattr(_get_reserved_names, '_cache'):
 		from .vector import Vector
-		from .table import Table
+		from .table import Table, Row
 		
 		reserved = set()
 		
-		# Collect all public attributes from both classes
-		for cls in (Vector, Table):
+		# Collect all public attributes from these classes
+		for cls in (Vector, Table, Row):
 			for name in dir(cls):
 				# Skip private/dunder attributes
 				if name.startswith('_'):
